@@ -92,3 +92,17 @@ pub fn probe_any<T>() -> T { unimplemented!() }
 // a work list; the specification exists so that a change which does is decided instead of leaving the Verus subset.
 pub assume_specification<T>[ <[T]>::reverse ](s: &mut [T])
     ensures final(s)@ == old(s)@.reverse();
+
+// rule R9 (continued): pure Option combinators that vstd does not cover.  TRUSTED one-line specifications; none of them is
+// used by /repo today - they exist so that a change which starts using one is decided instead of leaving the Verus subset.
+pub assume_specification<T, U>[ Option::<T>::and ](a: Option<T>, b: Option<U>) -> (r: Option<U>)
+    ensures r == (if a.is_some() { b } else { None });
+
+pub assume_specification<T>[ Option::<T>::xor ](a: Option<T>, b: Option<T>) -> (r: Option<T>)
+    ensures r == (match (a, b) { (Some(x), None) => Some(x), (None, Some(y)) => Some(y), _ => None });
+
+pub assume_specification<T, U>[ Option::<T>::zip ](a: Option<T>, b: Option<U>) -> (r: Option<(T, U)>)
+    ensures r == (match (a, b) { (Some(x), Some(y)) => Some((x, y)), _ => None });
+
+pub assume_specification<T>[ Option::<Option<T>>::flatten ](a: Option<Option<T>>) -> (r: Option<T>)
+    ensures r == (match a { Some(x) => x, None => None });
